@@ -11,6 +11,7 @@ import (
 	"sort"
 	"strings"
 	"sync"
+	"sync/atomic"
 	"syscall"
 	"time"
 
@@ -442,6 +443,47 @@ func c18Parse(c *mon.Ctx) {
 	}
 }
 
+// c18ParseConcurrent: several AuditClients, each on its own goroutine with its own (simulated) transport, receive
+// at the same time; every client must get the type and payload of ITS datagram (nothing is shared between
+// clients). The payload names the client and the round, so a mix-up is visible in the data itself.
+func c18ParseConcurrent(c *mon.Ctx) {
+	const G = 8
+	rounds := c.Pick(4000, 200000)
+	var wg sync.WaitGroup
+	var bad atomic.Int64
+	start := make(chan struct{})
+	for gi := 0; gi < G; gi++ {
+		wg.Add(1)
+		go func(gi int) {
+			defer wg.Done()
+			sim := simkernel.New(uint32(gi + 1))
+			cl := &libaudit.AuditClient{Netlink: sim}
+			<-start
+			for i := 0; i < rounds; i++ {
+				typ := uint16(1300 + (gi*131+i)%900)
+				text := fmt.Sprintf("audit(1.000:%d): client=%d round=%d %s", i, gi, i, strings.Repeat("x", (gi*7+i)%90))
+				d := simkernel.Event(typ, text)
+				sim.Queue = append(sim.Queue[:0], simkernel.Step{Dgram: d})
+				raw, err := cl.Receive(true)
+				if err != nil || raw == nil || uint16(raw.Type) != typ || string(raw.Data) != text {
+					if bad.Add(1) <= 3 {
+						got := "<nil>"
+						if raw != nil {
+							got = fmt.Sprintf("type %d %q", raw.Type, clipStr(string(raw.Data), 80))
+						}
+						c.Violation("receive-mixed-between-clients", fmt.Sprintf("client %d round %d: Receive returned %s (err %v), its transport delivered type %d %q (%d clients receive concurrently, each on its own transport)", gi, i, got, err, typ, clipStr(text, 80), G), &c18Case{Kind: "parse-concurrent", Dgram: d})
+					}
+					return
+				}
+			}
+		}(gi)
+	}
+	close(start)
+	wg.Wait()
+	c.Add("evaluations", int64(G*rounds))
+	c.Add("concurrent_client_receives", int64(G*rounds))
+}
+
 func c18Run(c *mon.Ctx) {
 	// (a)+(c) framing through the kernel's echo
 	cl, err := libaudit.NewNetlinkClient(syscall.NETLINK_ROUTE, 0, make([]byte, 32768), nil)
@@ -580,6 +622,7 @@ func c18Run(c *mon.Ctx) {
 	c18Sequences(c)
 	c18Spoof(c)
 	c18Parse(c)
+	c18ParseConcurrent(c)
 	c.Require("frames_echoed", 100)
 	c.Require("payload_echoes_compared", 100)
 	c.Require("header_only_echoes", 10)
@@ -590,12 +633,13 @@ func c18Run(c *mon.Ctx) {
 	c.Require("spoofed_shorter_than_header", 5)
 	c.Require("kernel_datagram_after_spoofing_received", 1)
 	c.Require("parse_cases", 1000)
+	c.Require("concurrent_client_receives", 1000)
 }
 
 func init() {
 	register(&mon.CheckSpec{
 		ID: "C18", Level: "exploration",
-		Rule: "cases = (a,c) requests sent with NetlinkClient.Send on a real NETLINK_ROUTE socket - types 0..15 with NLM_F_ACK (header-only echo) and random types in 256..65535 (never 16..255: live rtnetlink operations), flags = any 16 bits | NLM_F_REQUEST (and any 16 bits | NLM_F_ACK without NLM_F_REQUEST: acknowledged unprocessed, header echoed), payload lengths 0..8970 (every 37th quick, every length thorough) plus every length 0..64, random short payloads, and clients whose caller-supplied read buffer the reply fills exactly or with 1/4/64 bytes to spare - (most through a second client opened while a first one is open, so the socket's port id differs from the process id) whose NLMSG_ERROR reply, read back with Receive, carries the request as the kernel saw it (length, type, flags, port id, sequence = returned value, payload bytes); (b) N in {2,4,16} goroutines x M sends on one client: per-goroutine increasing, globally distinct, and the recorded {call, return, value} history checked with porcupine against a strictly increasing counter model (direct interval check when porcupine gives up); (d) datagrams of every length 0..64 and random longer ones, arbitrary and ACK-shaped contents, unicast and multicast from a second user-space netlink socket (NETLINK_ROUTE as root, NETLINK_USERSOCK): Receive must return an error and no message, and a later kernel reply must still be received; (e) AuditClient.Receive over the simulated Netlink with datagrams of every length 0..64 and random longer ones ending at a PROT_NONE page. Runs under the race detector; ASan in thorough. distinct_nontrivial = distinct frames, spoofed datagrams, parse inputs and sequence histories.",
+		Rule: "cases = (a,c) requests sent with NetlinkClient.Send on a real NETLINK_ROUTE socket - types 0..15 with NLM_F_ACK (header-only echo) and random types in 256..65535 (never 16..255: live rtnetlink operations), flags = any 16 bits | NLM_F_REQUEST (and any 16 bits | NLM_F_ACK without NLM_F_REQUEST: acknowledged unprocessed, header echoed), payload lengths 0..8970 (every 37th quick, every length thorough) plus every length 0..64, random short payloads, and clients whose caller-supplied read buffer the reply fills exactly or with 1/4/64 bytes to spare - (most through a second client opened while a first one is open, so the socket's port id differs from the process id) whose NLMSG_ERROR reply, read back with Receive, carries the request as the kernel saw it (length, type, flags, port id, sequence = returned value, payload bytes); (b) N in {2,4,16} goroutines x M sends on one client: per-goroutine increasing, globally distinct, and the recorded {call, return, value} history checked with porcupine against a strictly increasing counter model (direct interval check when porcupine gives up); (d) datagrams of every length 0..64 and random longer ones, arbitrary and ACK-shaped contents, unicast and multicast from a second user-space netlink socket (NETLINK_ROUTE as root, NETLINK_USERSOCK): Receive must return an error and no message, and a later kernel reply must still be received; (e) AuditClient.Receive over the simulated Netlink with datagrams of every length 0..64 and random longer ones ending at a PROT_NONE page; (f) eight AuditClients, each with its own transport and goroutine, receiving at the same time: each gets the type and payload of its own datagram. Runs under the race detector; ASan in thorough. distinct_nontrivial = distinct frames, spoofed datagrams, parse inputs and sequence histories.",
 		Assumptions: []string{
 			"the running kernel echoes rejected NETLINK_ROUTE requests in NLMSG_ERROR replies (netlink_ack) and delivers user-to-user netlink datagrams for root; if sockets cannot be opened the check is inconclusive, not green",
 			"message types 16..255 are never sent (they are live rtnetlink operations)",
